@@ -16,7 +16,12 @@ import (
 // Rng is splitmix64: every random choice of a run derives from VERIF_SEED.
 type Rng struct{ s uint64 }
 
-func NewRng(seed uint64) *Rng { return &Rng{seed*0x9E3779B97F4A7C15 + 0x1234567} }
+func NewRng(seed uint64) *Rng {
+	// scramble the seed so that consecutive seeds give unrelated streams
+	r := &Rng{seed ^ 0x5851F42D4C957F2D}
+	r.s = r.U64() ^ (seed * 0xD6E8FEB86659FD93)
+	return r
+}
 
 func (r *Rng) U64() uint64 {
 	r.s += 0x9E3779B97F4A7C15
@@ -34,7 +39,7 @@ func (r *Rng) Intn(n int) int {
 func (r *Rng) Range(lo, hi int) int { return lo + r.Intn(hi-lo+1) }
 func (r *Rng) Bool() bool          { return r.U64()&1 == 1 }
 func (r *Rng) Chance(num, den int) bool { return r.Intn(den) < num }
-func (r *Rng) Fork() *Rng          { return &Rng{r.U64()} }
+func (r *Rng) Fork() *Rng          { return NewRng(r.U64()) }
 
 // Trace writes the line protocol: operation lines, each followed by the
 // implementation's outputs prefixed with "> ".
